@@ -676,6 +676,7 @@ func runRand(c *caseT) *resT {
 	}
 	late := generated(res, p, newGraph(tree, lex{ext: tg.ext, nstab: tg.home}), tree, inl, genT{Seed: c.Seed, N: c.N, Deep: c.Deep}, map[string]bool{})
 	if !c.SkipLoops {
+		p.late = true
 		for _, f := range late {
 			f()
 		}
